@@ -43,6 +43,15 @@ def rnd_desc(rng: random.Random, i: int) -> dict[str, Any]:
         handlers.append({'kind': 'delete', 'id': 'd1', 'script': rng.choice([[], [['temp', 0.8]]])})
     if rng.random() < 0.3:
         handlers.append({'kind': 'daemon', 'id': 'dm', 'persona': {'type': 'obedient'}})
+    r7 = random.Random(rng.random())
+    if r7.random() < 0.3:
+        # a daemon that takes its time to exit once it is asked to (deletion): while it is being stopped the processing passes carry re-check delays of
+        # the stopping (backoff / polling) -- which are not the consistency timeout: the barrier stands until the echo or the timeout all the same
+        handlers = [h for h in handlers if h['id'] != 'dm']
+        handlers.append({'kind': 'daemon', 'id': 'dm', 'persona': {'type': 'linger', 'linger': r7.choice([2.0, 6.0, 12.0])},
+                         'opts': {'cancellation_backoff': r7.choice([0.3, 1.0]), **({'cancellation_timeout': 1.0} if r7.random() < 0.3 else {})}})
+        if not any(h['id'] == 'd1' for h in handlers) and r7.random() < 0.7:
+            handlers.append({'kind': 'delete', 'id': 'd1', 'script': r7.choice([[], [['temp', 0.8]]])})
     if rng.random() < 0.25:
         # a timer that delivers a result at every tick: patches of the framework that do not come from the object's worker
         handlers.append({'kind': 'timer', 'id': 'tm', 'opts': {'interval': rng.choice([0.3, 0.7, 1.3])}, 'script': [['ok', {'n': k}] for k in range(60)]})
@@ -61,12 +70,19 @@ def rnd_desc(rng: random.Random, i: int) -> dict[str, Any]:
             tl.append([t, 'edit', n, {'spec': {'x': k + 1}}])
         else:
             tl.append([t, 'delete', n])
+    if any(h['id'] == 'dm' and h['persona']['type'] == 'linger' for h in handlers):
+        # the deletion comes early, foreign (status) events keep coming while the daemon winds down
+        t_del = round(r7.uniform(3.0, 6.0), 3)
+        tl.append([t_del, 'delete', names[0]])
+        for k in range(r7.randint(2, 6)):
+            tl.append([round(t_del + r7.uniform(0.05, 8.0), 3), 'edit', names[0], {'status': {'late': k}}])
+        tl.sort(key=lambda x: x[0])
     grid = [0.0, 0.0, 0.5 * base, 0.99 * base, 1.0 * base, 1.01 * base, 1.5 * base, 3.0 * base]
     own = [round(rng.choice(grid), 6) for _ in range(3)]
     foreign = [round(rng.choice([0.0, 0.0, 0.1, 0.5 * base, 1.2 * base]), 6) for _ in range(2)]
     return {'seed': rng.randrange(1 << 30), 'handlers': handlers, 'timeline': tl, 'quiet': 4 * base + 10.0, 'horizon': 600.0,
             'lifecycle': rng.choice([None, 'one_by_one', 'all_at_once']), 'storage': rng.choice(['default', 'status']), 'resources': rng.choice(['kex', 'kex_s']),
-            'settings': {'queueing__idle_timeout': idle, 'persistence__consistency_timeout': ct, 'execution__default_backoff': 0.8},
+            'settings': {'queueing__idle_timeout': idle, 'persistence__consistency_timeout': ct, 'execution__default_backoff': 0.8, 'background__cancellation_polling': 1.0},
             'lag': {'own': own, 'foreign': foreign}, 'latency': rng.choice([1e-6, 1e-6, 0.05, 0.3]), 'post_yields': rng.choice([0, 0, 1])}
 
 
